@@ -164,7 +164,7 @@ impl<M: SyncApi + LockName> TimerCore<M> {
         self.slots.regs(&mut regs);
         let svc: &'static GenericTimerService<M> = self.owners.1.get();
         let slots = &self.slots;
-        self.view = inspect_and_check(ctx, Shape::Heap, regs, &mut |v| svc.verif_inspect(v), &mut |r| slots.node_info(r.slot as usize));
+        self.view = inspect_and_check(ctx, Shape::Heap, regs, &mut |v| svc.verif_inspect(v), &mut |r| slots.node_info(r.slot as usize), &|_, i| i.state == 1);
         // next_expiration() == min deadline of registered, not expired, live futures
         let expect = (0..self.slots.v.len()).filter(|i| self.registered(*i)).map(|i| self.slots.v[i].arg).min();
         if let Some(got) = call(ctx, "next_expiration", 0, 0, || svc.next_expiration()) {
